@@ -79,7 +79,7 @@ func c03Check(c *mon.Ctx, s *smf.SMF, sh *ref.File, in map[string]any, strictReq
 
 func runC03(c *mon.Ctx) {
 	// ---- the C01 value stream, deltas capped
-	c.Each("histories", c.N(20_000, 200_000), func(i int64, r *mon.Rand) {
+	c.Each("histories", c.N(20_000, 1_500_000), func(i int64, r *mon.Rand) {
 		a := buildHistory(r, 0x0FFFFFFF, i%32 == 0)
 		in := map[string]any{"history": a.desc}
 		b := c03Check(c, a.s, a.sh, in, true)
